@@ -265,3 +265,318 @@ Example C05_subgraph_scanning_nonvacuous :
   dag_with_order sbV sbE 10%N 11%N sbV /\ decomposition (sg_inst sbV sbE 10%N 11%N sbf [] 2) sbP sbw /\
   window_subgraph sbV 1 2 sbE = ([1; 0; 2]%N, [(0, 1); (1, 2)]%N) /\ k' sbV 1 2 2 sbP = 1%nat.
 Proof. split; [exact sb_dag|]. split; [exact sb_decomposition|exact sb_window]. Qed.
+
+(* ---- audit additions (agent-c19): instances of exactly the hypotheses of the theorems above ---- *)
+From Coq Require Import Lqa.
+Local Open Scope Q_scope.
+
+(* every premise of C05_distinct_flow_values_need_log2_many_paths and C05_min_gen_set_lower_bound_is_sound on the instance of the
+   Example above (C05_lower_bounds_nonvacuous states the decomposition, the cut and the CONCLUSION; the three shape premises about
+   the source and the ignore list, and the premises about L, were only used inside its proof) *)
+Example C05_min_gen_set_premises_satisfiable :
+  let I := lbI 2 in let G := p_graph (f_base I) in let E := g_edges G in let s := g_src G in let t := g_snk G in
+  let L := [(1, 2); (1, 3)]%N in
+  decomposition I lbP lbW /\ wf_graph G /\
+  (forall u x, In (s, u) E -> In (x, u) E -> x = s) /\
+  (forall e, In e E -> mem_edge e (f_ignore I) = true -> fst e = s \/ snd e = t) /\
+  (forall u, In (s, u) E -> mem_edge (s, u) (f_ignore I) = true) /\
+  (forall e, In e L -> In e E /\ mem_edge e (f_ignore I) = false) /\
+  ForallOrdPairs (fun e e' => ~ (LowerBounds.flow_of I e == LowerBounds.flow_of I e')) L.
+Proof.
+  cbn zeta. destruct lb_premises as (S1 & S2 & S3).
+  split; [exact lb_decomposition|]. split; [exact lb_wf|]. split; [exact S1|]. split; [exact S2|]. split; [exact S3|].
+  split; [intros e He; cbn in He; intuition (subst; cbn; auto)|]. repeat constructor. vm_compute. discriminate.
+Qed.
+Print Assumptions C05_min_gen_set_premises_satisfiable.
+
+(* the least generating multiset of {2, 3} for total 5 (multiplicity 1) has 2 elements: none of size 0 (sum 0) or 1 (the one
+   element would have to be 2, 3 and 5) *)
+Lemma C05_genset_2_3_needs_two (g : list Q) : genset 1 [2; 3] (2 + (3 + 0)) g -> (2 <= length g)%nat.
+Proof.
+  intros (Hnn & Hsum & Hgen). destruct g as [|v [|v2 g]]; [exfalso|exfalso|cbn; lia].
+  - revert Hsum. vm_compute. discriminate.
+  - destruct (Hgen 2 (or_introl eq_refl)) as (xs & Hl & Hr & Hd).
+    destruct xs as [|x [|? ?]]; try discriminate Hl. inversion Hr as [|? ? Hx _]; subst.
+    cbn [sumql dotz] in *. assert (Hx' : x = 0%Z \/ x = 1%Z) by lia. destruct Hx' as [-> | ->].
+    + change (inject_Z 0) with 0 in Hd. lra.
+    + change (inject_Z 1) with 1 in Hd. lra.
+Qed.
+Print Assumptions C05_genset_2_3_needs_two.
+
+(* every premise of C05_lower_bounds_cut_off_nothing with inst = lbI, L = the two source-cut edges, mgs = 2: the search may start at
+   max(log2_up 2, 2) = 2, and indeed (conclusion) no decomposition with fewer than 2 paths exists *)
+Example C05_cut_off_nothing_premises_satisfiable :
+  let L := [(1, 2); (1, 3)]%N in
+  (forall k, p_k (f_base (lbI k)) = k) /\
+  (forall k e, In e L -> In e (g_edges (p_graph (f_base (lbI k)))) /\ mem_edge e (f_ignore (lbI k)) = false) /\
+  (forall k, ForallOrdPairs (fun e e' => ~ (LowerBounds.flow_of (lbI k) e == LowerBounds.flow_of (lbI k) e')) L) /\
+  (forall k g, genset 1 (map (LowerBounds.flow_of (lbI k)) L)
+                      (sumq (LowerBounds.flow_of (lbI k)) (src_cut (p_graph (f_base (lbI k))) (f_ignore (lbI k)))) g ->
+               (2 <= length g)%nat) /\
+  (forall k, let G := p_graph (f_base (lbI k)) in
+     wf_graph G /\ (forall u x, In (g_src G, u) (g_edges G) -> In (x, u) (g_edges G) -> x = g_src G) /\
+     (forall e, In e (g_edges G) -> mem_edge e (f_ignore (lbI k)) = true -> fst e = g_src G \/ snd e = g_snk G) /\
+     (forall u, In (g_src G, u) (g_edges G) -> mem_edge (g_src G, u) (f_ignore (lbI k)) = true)) /\
+  Nat.max (Nat.log2_up (length L)) 2 = 2%nat /\
+  (forall k, (k < 2)%nat -> ~ exists P w, decomposition (lbI k) P w).
+Proof.
+  cbn zeta. destruct lb_premises as (S1 & S2 & S3).
+  assert (H1 : forall k : nat, p_k (f_base (lbI k)) = k) by reflexivity.
+  assert (H2 : forall (k : nat) e, In e [(1, 2); (1, 3)]%N -> In e (g_edges (p_graph (f_base (lbI k)))) /\ mem_edge e (f_ignore (lbI k)) = false)
+    by (intros k e He; cbn in He; intuition (subst; cbn; auto)).
+  assert (H3 : forall k : nat, ForallOrdPairs (fun e e' => ~ (LowerBounds.flow_of (lbI k) e == LowerBounds.flow_of (lbI k) e')) [(1, 2); (1, 3)]%N)
+    by (intros k; repeat constructor; vm_compute; discriminate).
+  assert (H4 : forall (k : nat) g, genset 1 (map (LowerBounds.flow_of (lbI k)) [(1, 2); (1, 3)]%N)
+                      (sumq (LowerBounds.flow_of (lbI k)) (src_cut (p_graph (f_base (lbI k))) (f_ignore (lbI k)))) g -> (2 <= length g)%nat)
+    by (intros k g Hg; apply C05_genset_2_3_needs_two; exact Hg).
+  assert (H5 : forall k : nat, let G := p_graph (f_base (lbI k)) in
+     wf_graph G /\ (forall u x, In (g_src G, u) (g_edges G) -> In (x, u) (g_edges G) -> x = g_src G) /\
+     (forall e, In e (g_edges G) -> mem_edge e (f_ignore (lbI k)) = true -> fst e = g_src G \/ snd e = g_snk G) /\
+     (forall u, In (g_src G, u) (g_edges G) -> mem_edge (g_src G, u) (f_ignore (lbI k)) = true))
+    by (intros k; cbn zeta; split; [exact lb_wf|]; split; [exact S1|]; split; [exact S2|exact S3]).
+  split; [exact H1|]. split; [exact H2|]. split; [exact H3|]. split; [exact H4|]. split; [exact H5|]. split; [reflexivity|].
+  exact (C05_lower_bounds_cut_off_nothing lbI [(1, 2); (1, 3)]%N 2 H1 H2 H3 H4 H5).
+Qed.
+Print Assumptions C05_cut_off_nothing_premises_satisfiable.
+
+(* every premise of C05_min_gen_set_option_is_sound (the end-to-end form with MinGenSet's own search): J = lbI 2, the MinGenSet
+   instance for the flow values {2, 3} and the source flow 5, a solver that answers Infeasible below 2 and Optimal at 2 (both answers
+   are TRUE of the rows: size 2 is satisfiable by completeness with the multiset {2, 3}; sizes 0 and 1 are not by soundness and the
+   lemma above), search from lowerbound 1: tried [1; 2], reported 2 <= 2 paths *)
+Definition C05_mgs_I : mgs_inst := {| mg_numbers := [2; 3]; mg_total := 2 + (3 + 0); mg_int := true; mg_mult := 1; mg_parts := None |}.
+Definition C05_mgs_status (k : nat) : mstatus := if (k =? 2)%nat then MgOptimal else if (k <? 2)%nat then MgInfeasible else MgOther.
+Example C05_min_gen_set_option_premises_satisfiable :
+  let J := lbI 2 in let G := p_graph (f_base J) in let E := g_edges G in
+  mg_parts C05_mgs_I = None /\ mg_mult C05_mgs_I = 1%nat /\ mg_int C05_mgs_I = f_int J /\
+  (forall a, In a (mg_numbers C05_mgs_I) -> exists e, In e E /\ mem_edge e (f_ignore J) = false /\ (a == LowerBounds.flow_of J e)) /\
+  (mg_total C05_mgs_I == sumq (LowerBounds.flow_of J) (src_cut G (f_ignore J))) /\
+  (forall k, C05_mgs_status k = MgOptimal -> exists a, sat a (encode_mgs C05_mgs_I k)) /\
+  (forall k, C05_mgs_status k = MgInfeasible -> forall a, ~ sat a (encode_mgs C05_mgs_I k)) /\
+  mgsm_loop C05_mgs_status 1 2 0 = ([1; 2]%nat, Some 2%nat) /\ (1 <= p_k (f_base J))%nat.
+Proof.
+  cbn zeta. split; [reflexivity|]. split; [reflexivity|]. split; [reflexivity|].
+  split; [intros a Ha; cbn in Ha; destruct Ha as [<-|[<-|[]]]; [exists (1, 2)%N|exists (1, 3)%N]; (split; [cbn; tauto|split; vm_compute; reflexivity])|].
+  split; [vm_compute; reflexivity|].
+  split; [|split; [|split; [vm_compute; reflexivity|cbn; lia]]].
+  - intros k Hk. unfold C05_mgs_status in Hk. destruct (k =? 2)%nat eqn:E2; [|destruct (k <? 2)%nat; discriminate Hk].
+    apply Nat.eqb_eq in E2. subst k. apply (mgs_enc_complete C05_mgs_I 2 [2; 3]); [cbn; lia|reflexivity|].
+    split; [|split; [intros _; repeat constructor; [exists 2%Z|exists 3%Z]; reflexivity|unfold parts_of; cbn; constructor]].
+    split; [repeat constructor; discriminate|]. split; [reflexivity|].
+    intros a Ha. cbn in Ha. destruct Ha as [<-|[<-|[]]]; [exists [1; 0]%Z|exists [0; 1]%Z]; (split; [reflexivity|split; [apply Forall_cons; [cbn; lia|apply Forall_cons; [cbn; lia|apply Forall_nil]]|vm_compute; reflexivity]]).
+  - intros k Hk a Hs. unfold C05_mgs_status in Hk. destruct (k =? 2)%nat; [discriminate Hk|]. destruct (k <? 2)%nat eqn:L2; [|discriminate Hk].
+    apply Nat.ltb_lt in L2.
+    destruct (proj1 (mgs_feasible_iff C05_mgs_I k eq_refl ltac:(cbn; lia)) (ex_intro _ a Hs)) as (g & Hl & (Hg & _)).
+    pose proof (C05_genset_2_3_needs_two g Hg). lia.
+Qed.
+Print Assumptions C05_min_gen_set_option_premises_satisfiable.
+
+From FP Require WalkExamples.
+(* the WALK theorems (C05_min_gen_set_lower_bound_is_sound_for_walks / C05_min_gen_set_option_is_sound_for_walks) had no instance at
+   all.  0 -> 1 -> 2 -> 3 with a self-loop on 2 (synthetic source 0, sink 3; flow 2 on 1 -> 2 and 4 on the loop), ONE walk
+   0,1,2,2,2,3 of weight 2 that traverses the loop twice: every premise holds with M = 2, the source cut is {1 -> 2}, the source flow 2,
+   and the generating multiset {2} generates 4 only with multiplicity 2 -- with max_multiplicity 1 (the seeded change
+   C04-selfloop-mingenset-bound) the hypothesis `mult P i e <= M` is false for this walk *)
+Definition C05_wG : stgraph :=
+  {| g_nodes := [0; 1; 2; 3]%N; g_edges := [(0, 1); (1, 2); (2, 2); (2, 3)]%N; g_src := 0%N; g_snk := 3%N;
+     g_succ := [(0, [1]); (1, [2]); (2, [2; 3]); (3, [])]%N; g_pred := [(0, []); (1, [0]); (2, [1; 2]); (3, [2])]%N |}.
+Definition C05_wI : kfdc_inst :=
+  {| c_graph := C05_wG; c_k := 1; c_flow := [((1, 2)%N, 2); ((2, 2)%N, 4)]; c_ignore := []; c_int := true;
+     c_cons := []; c_cov := 1; c_opts := WalkExamples.no_opts; c_safe_lists := []; c_fix := []; c_given := None; c_scale_free := false |}.
+Definition C05_wP (i : N) : list node := [0; 1; 2; 2; 2; 3]%N.
+Example C05_walk_premises_satisfiable :
+  let G := c_graph C05_wI in let E := g_edges G in let s := g_src G in let t := g_snk G in
+  walk_decomposition C05_wI C05_wP (fun _ => 2) /\ wf_graph G /\
+  (forall u x, In (s, u) E -> In (x, u) E -> x = s) /\
+  (forall e, In e E -> mem_edge e (kfdc_ignore C05_wI) = true -> fst e = s \/ snd e = t) /\
+  (forall u, In (s, u) E -> mem_edge (s, u) (kfdc_ignore C05_wI) = true) /\
+  (forall i e, In i (layers (c_k C05_wI)) -> In e (kept_edges C05_wI) -> (mult C05_wP i e <= Z.of_nat 2)%Z) /\
+  mult C05_wP 0%N (2, 2)%N = 2%Z /\
+  (forall e, In e [(1, 2); (2, 2)]%N -> In e (kept_edges C05_wI)) /\
+  src_cut G (kfdc_ignore C05_wI) = [(1, 2)%N] /\
+  genset 2 (map (WalkEncRows.flow_of C05_wI) [(1, 2); (2, 2)]%N) (sumq (WalkEncRows.flow_of C05_wI) (src_cut G (kfdc_ignore C05_wI))) [2] /\
+  ~ genset 1 (map (WalkEncRows.flow_of C05_wI) [(1, 2); (2, 2)]%N) (sumq (WalkEncRows.flow_of C05_wI) (src_cut G (kfdc_ignore C05_wI))) [2].
+Proof.
+  cbn zeta.
+  assert (KE : kept_edges C05_wI = [(1, 2); (2, 2)]%N) by reflexivity.
+  split; [split; [|split]|].
+  - intros i _. split; [reflexivity|]. split; [reflexivity|]. intros e He. cbn in He |- *. intuition.
+  - intros i _. split; [discriminate|]. intros _. exists 2%Z. reflexivity.
+  - intros e He. rewrite KE in He. cbn in He. destruct He as [<-|[<-|[]]]; vm_compute; reflexivity.
+  - split.
+    { constructor.
+      - cbn. repeat constructor; cbn; intuition discriminate.
+      - intros e He. cbn in He. cbn. intuition (subst; cbn; auto).
+      - intros v. destruct v as [|[[p|p|]|[p|p|]|]]; reflexivity.
+      - intros v. destruct v as [|[[p|p|]|[p|p|]|]]; cbn; apply Permutation_refl.
+      - intros e He. cbn in He. intuition (subst; cbn; discriminate).
+      - intros e He. cbn in He. intuition (subst; cbn; discriminate).
+      - cbn. discriminate. }
+    split; [intros u x H1 H2; cbn in H1, H2; destruct H1 as [H1|[H1|[H1|[H1|[]]]]]; inversion H1; subst;
+            destruct H2 as [H2|[H2|[H2|[H2|[]]]]]; inversion H2; subst; reflexivity|].
+    split; [intros e He Hig; cbn in He; destruct He as [<-|[<-|[<-|[<-|[]]]]]; cbn; auto; discriminate Hig|].
+    split; [intros u H; cbn in H; destruct H as [H|[H|[H|[H|[]]]]]; inversion H; subst; reflexivity|].
+    split; [intros i e Hi He; cbn in Hi; destruct Hi as [<-|[]]; rewrite KE in He; cbn in He; destruct He as [<-|[<-|[]]]; vm_compute; discriminate|].
+    split; [reflexivity|]. split; [rewrite KE; intros e He; exact He|]. split; [reflexivity|]. split.
+    + split; [repeat constructor; discriminate|]. split; [vm_compute; reflexivity|].
+      intros a Ha. cbn in Ha. destruct Ha as [<-|[<-|[]]]; [exists [1%Z]|exists [2%Z]];
+        (split; [reflexivity|split; [apply Forall_cons; [cbn; lia|apply Forall_nil]|vm_compute; reflexivity]]).
+    + intros (_ & _ & Hgen). destruct (Hgen (WalkEncRows.flow_of C05_wI (2, 2)%N) ltac:(cbn; tauto)) as (xs & Hl & Hr & Hd).
+      destruct xs as [|x [|? ?]]; try discriminate Hl. inversion Hr as [|? ? Hx _]; subst.
+      assert (Hx' : x = 0%Z \/ x = 1%Z) by (cbn in Hx; lia). destruct Hx' as [-> | ->]; revert Hd; vm_compute; discriminate.
+Qed.
+Print Assumptions C05_walk_premises_satisfiable.
+
+(* ... and the remaining premises of C05_min_gen_set_option_is_sound_for_walks on the same instance: MinGenSet for the values {2, 4},
+   total 2, max_multiplicity 2, a solver that answers Optimal at size 1 (true: {2} generates 2 = 1*2 and 4 = 2*2), search from 1 *)
+Definition C05_wmgs_I : mgs_inst := {| mg_numbers := [2; 4]; mg_total := 2; mg_int := true; mg_mult := 2; mg_parts := None |}.
+Definition C05_wmgs_status (k : nat) : mstatus := if (k =? 1)%nat then MgOptimal else MgOther.
+Example C05_walk_option_premises_satisfiable :
+  mg_parts C05_wmgs_I = None /\ (1 <= mg_mult C05_wmgs_I)%nat /\ mg_int C05_wmgs_I = c_int C05_wI /\
+  (forall i e, In i (layers (c_k C05_wI)) -> In e (kept_edges C05_wI) -> (mult C05_wP i e <= Z.of_nat (mg_mult C05_wmgs_I))%Z) /\
+  (forall a, In a (mg_numbers C05_wmgs_I) -> exists e, In e (kept_edges C05_wI) /\ (a == WalkEncRows.flow_of C05_wI e)) /\
+  (mg_total C05_wmgs_I == sumq (WalkEncRows.flow_of C05_wI) (src_cut (c_graph C05_wI) (kfdc_ignore C05_wI))) /\
+  (forall k, C05_wmgs_status k = MgOptimal -> exists a, sat a (encode_mgs C05_wmgs_I k)) /\
+  (forall k, C05_wmgs_status k = MgInfeasible -> forall a, ~ sat a (encode_mgs C05_wmgs_I k)) /\
+  mgsm_loop C05_wmgs_status 1 2 0 = ([1%nat], Some 1%nat) /\ (1 <= c_k C05_wI)%nat.
+Proof.
+  destruct C05_walk_premises_satisfiable as (_ & _ & _ & _ & _ & HM & _ & _ & _ & _ & _).
+  split; [reflexivity|]. split; [cbn; lia|]. split; [reflexivity|]. split; [exact HM|].
+  split; [intros a Ha; cbn in Ha; destruct Ha as [<-|[<-|[]]]; [exists (1, 2)%N|exists (2, 2)%N]; (split; [cbn; tauto|vm_compute; reflexivity])|].
+  split; [vm_compute; reflexivity|].
+  split; [|split; [|split; [vm_compute; reflexivity|cbn; lia]]].
+  - intros k Hk. unfold C05_wmgs_status in Hk. destruct (k =? 1)%nat eqn:E1; [|discriminate Hk]. apply Nat.eqb_eq in E1. subst k.
+    apply (mgs_enc_complete C05_wmgs_I 1 [2]); [cbn; lia|reflexivity|].
+    split; [|split; [intros _; repeat constructor; exists 2%Z; reflexivity|unfold parts_of; cbn; constructor]].
+    split; [repeat constructor; discriminate|]. split; [vm_compute; reflexivity|].
+    intros a Ha. cbn in Ha. destruct Ha as [<-|[<-|[]]]; [exists [1%Z]|exists [2%Z]];
+      (split; [reflexivity|split; [apply Forall_cons; [cbn; lia|apply Forall_nil]|vm_compute; reflexivity]]).
+  - intros k Hk. unfold C05_wmgs_status in Hk. destruct (k =? 1)%nat; discriminate Hk.
+Qed.
+Print Assumptions C05_walk_option_premises_satisfiable.
+
+(* the hypothesis "no decomposition of the window subgraph H with fewer than lbH paths" of the three scanning theorems is vacuous
+   for lbH = 0 (the only value C05_subgraph_scanning_nonvacuous reaches).  With lbH = 1 on the same instance: H carries flow 1 on
+   0 -> 1, which zero paths do not explain, so 1 is a valid bound for G (conclusion of the theorem), both with and without the
+   ignore list *)
+Example C05_subgraph_scanning_premise_satisfiable_for_a_positive_bound :
+  let VH := fst (window_subgraph sbV 1 2 sbE) in let EH := snd (window_subgraph sbV 1 2 sbE) in
+  (forall j, (j < 1)%nat -> ~ exists PH wH, decomposition (sg_inst VH EH 10%N 11%N sbf (restrict_ignore VH []) j) PH wH) /\
+  (forall j, (j < 1)%nat -> ~ exists PH wH, decomposition (e2e_inst VH EH 10%N 11%N sbf j) PH wH) /\
+  valid_lb sbV sbE 10%N 11%N sbf 1.
+Proof.
+  cbn zeta.
+  assert (H2 : forall j, (j < 1)%nat ->
+            ~ exists PH wH, decomposition (e2e_inst (fst (window_subgraph sbV 1 2 sbE)) (snd (window_subgraph sbV 1 2 sbE)) 10%N 11%N sbf j) PH wH).
+  { intros j Hj (PH & wH & (_ & _ & Hf)). assert (j = 0%nat) by lia. subst j.
+    specialize (Hf (0, 1)%N ltac:(vm_compute; tauto) ltac:(vm_compute; reflexivity)). revert Hf. vm_compute. discriminate. }
+  split; [|split; [exact H2|]].
+  - intros j Hj (PH & wH & (_ & _ & Hf)). assert (j = 0%nat) by lia. subst j.
+    specialize (Hf (0, 1)%N ltac:(vm_compute; tauto) ltac:(vm_compute; reflexivity)). revert Hf. vm_compute. discriminate.
+  - exact (C05_scanning_bound_is_valid sbV sbE 10%N 11%N sbf sbV 1 2 1 sb_dag H2).
+Qed.
+Print Assumptions C05_subgraph_scanning_premise_satisfiable_for_a_positive_bound.
+
+From FP Require Import EndToEndExample.
+(* valid_lb -- the hypothesis of the two end-to-end theorems -- has instances on the diamond of C03_end_to_end_premises_satisfiable
+   (EndToEndExample.v; its caller-input premises are that Example): the log2 bound of the two branch values (= 1), the trivial bound
+   0, and their maximum.  The solver-specification hypotheses (`feasible`, `sts`) of these two theorems are the ones of
+   C03_minflowdecomp_end_to_end and are not instantiated in this file (see DESIGN 10.4, audit). *)
+Example C05_valid_lower_bounds_exist :
+  valid_lb xV xE 0%N 5%N xf (Nat.log2_up (length [(1, 2); (1, 3)]%N)) /\ Nat.log2_up (length [(1, 2); (1, 3)]%N) = 1%nat /\
+  valid_lb xV xE 0%N 5%N xf 0 /\ valid_lb xV xE 0%N 5%N xf (Nat.max (Nat.log2_up (length [(1, 2); (1, 3)]%N)) 0).
+Proof.
+  assert (H0 : valid_lb xV xE 0%N 5%N xf 0) by (intros k P w _; lia).
+  split; [exact bounds_example|]. split; [reflexivity|]. split; [exact H0|].
+  exact (C05_valid_bounds_combine xV xE 0%N 5%N xf ltac:(discriminate) _ _ bounds_example H0).
+Qed.
+Print Assumptions C05_valid_lower_bounds_exist.
+
+(* degenerate inputs of the log2 bound: Nat.log2_up is total with log2_up 0 = log2_up 1 = 0, so for an input with no or one distinct
+   flow value the theorems C05_distinct_flow_values_need_log2_many_paths / C05_log2_bound_is_valid yield the bound 0, which is
+   trivially valid -- true for the right reason (2^0 = 1 >= #values), and it says NOTHING about k >= 1; the code's own
+   max(1, ...) / width floor is not part of these statements *)
+Example C05_log2_bound_degenerate_values : Nat.log2_up 0 = 0%nat /\ Nat.log2_up 1 = 0%nat /\ Nat.log2_up 2 = 1%nat /\ Nat.log2_up 3 = 2%nat.
+Proof. repeat split; reflexivity. Qed.
+Print Assumptions C05_log2_bound_degenerate_values.
+
+(* the abstract premises of C05_partition_constraints_are_sound (arbitrary k, w, m, flow, live, C) on the instance above: k = 2, the
+   weights 2, 3, m = traversal counts of the two paths, live = the two edges to be explained, C = the source cut {1->2, 1->3};
+   each path crosses the cut once; the crossing weights (2, 3) sum to the source flow 5 (conclusion) *)
+Example C05_partition_constraints_premises_satisfiable :
+  let m := fun i e => multz (pairs (lbP i)) e in
+  let live := fun e => In e [(1, 2); (1, 3)]%N in
+  let C := [(1, 2); (1, 3)]%N in
+  (forall e, live e -> (sumq (fun i => lbW i * inject_Z (m i e)) (layers 2) == LowerBounds.flow_of (lbI 2) e)) /\
+  (forall e, In e C -> live e) /\
+  (forall i, In i (layers 2) -> cntz m C i = 1%Z \/ (cntz m C i = 0%Z /\ forall e, live e -> m i e = 0%Z)) /\
+  gw 2 lbW m C = [2; 3].
+Proof.
+  cbn zeta. split; [|split; [|split]].
+  - intros e He. cbn in He. destruct He as [<-|[<-|[]]]; vm_compute; reflexivity.
+  - intros e He. exact He.
+  - intros i Hi. cbn in Hi. destruct Hi as [<-|[<-|[]]]; left; vm_compute; reflexivity.
+  - vm_compute. reflexivity.
+Qed.
+Print Assumptions C05_partition_constraints_premises_satisfiable.
+
+(* the SOLVER-SPECIFICATION hypotheses of the two end-to-end theorems (and of the older C03_minflowdecomp_end_to_end) together with
+   the caller-input premises of C03_end_to_end_premises_satisfiable: on the diamond with flows 2 / 3 the k-model is feasible exactly
+   for k >= 2 (<=: the width bound with the antichain of size 2; =>: the two paths padded with zero-weight copies), so
+   feasible := (2 <=? k); from the valid bounds 1 (log2) and 0 the status lists are Infeasible, Optimal, ... and both searches
+   return 2 *)
+From FP Require Import Dilworth WidthBound.
+Definition C05_xP (i : N) : list node := if (i =? 0)%N then [0; 1; 2; 4; 5]%N else [0; 1; 3; 4; 5]%N.
+Definition C05_xw (i : N) : Q := if (i =? 0)%N then 2 else if (i =? 1)%N then 3 else 0.
+
+Lemma C05_tail_zero (g : N -> Q) : forall n a, (forall j, (a <= j)%nat -> g (N.of_nat j) == 0) -> sumq g (map N.of_nat (seq a n)) == 0.
+Proof.
+  induction n as [|n IH]; intros a H; [reflexivity|]. cbn [seq map sumq]. rewrite (H a (le_n a)), (IH (S a)); [ring|].
+  intros j Hj. apply H. lia.
+Qed.
+Print Assumptions C05_tail_zero.
+
+Lemma C05_x_decomposition (k : nat) : (2 <= k)%nat -> decomposition (e2e_inst xV xE 0%N 5%N xf k) C05_xP C05_xw.
+Proof.
+  intros Hk. split; [|split].
+  - intros i _. unfold C05_xP. destruct (i =? 0)%N; (split; [reflexivity|]; split; [reflexivity|]; split;
+      [repeat constructor; cbn; intuition discriminate|intros e He; vm_compute in He; vm_compute; tauto]).
+  - intros i _. unfold C05_xw. destruct (i =? 0)%N; [|destruct (i =? 1)%N];
+      (split; [vm_compute; split; discriminate|]); intros _; [exists 2%Z|exists 3%Z|exists 0%Z]; reflexivity.
+  - intros e He Hig. destruct k as [|[|n]]; try lia. unfold layers. cbn [seq map sumq p_k f_base e2e_inst].
+    rewrite (C05_tail_zero (fun i => C05_xw i * indq (mem_edge e (pairs (C05_xP i)))) n 2).
+    + vm_compute in He.
+      repeat (destruct He as [<-|He]; [first [vm_compute; reflexivity | vm_compute in Hig; discriminate Hig]|]). destruct He.
+    + intros j Hj. unfold C05_xw. destruct j as [|[|j]]; try lia.
+      replace (N.of_nat (S (S j)) =? 0)%N with false by (symmetry; apply N.eqb_neq; lia).
+      replace (N.of_nat (S (S j)) =? 1)%N with false by (symmetry; apply N.eqb_neq; lia). ring.
+Qed.
+Print Assumptions C05_x_decomposition.
+
+Example C05_end_to_end_solver_hypotheses_satisfiable :
+  let feasible := fun k => (2 <=? k)%nat in
+  let sts := map (fun k => mkraw (if feasible k then Optimal else Infeasible) false) (seq 1 (length xE)) in
+  (forall k, feasible k = true <-> exists a, sat a (encode_kfd (e2e_inst xV xE 0%N 5%N xf k))) /\
+  (forall i, (i < S (length xE) - 1)%nat -> exists x, nth_error sts i = Some x /\
+             status_of x = if feasible (1 + i)%nat then Optimal else Infeasible) /\
+  valid_lb xV xE 0%N 5%N xf 1 /\
+  so_res (mpc_solve true 1 (S (length xE)) sts) = Solved 2 /\
+  (* ... and from the other valid bound 0 (second status list of C05_lower_bound_choice_is_immaterial): same result *)
+  (let sts' := map (fun k => mkraw (if feasible k then Optimal else Infeasible) false) (seq 0 (S (length xE))) in
+   (forall i, (i < S (length xE) - 0)%nat -> exists x, nth_error sts' i = Some x /\
+              status_of x = if feasible (0 + i)%nat then Optimal else Infeasible) /\
+   valid_lb xV xE 0%N 5%N xf 0 /\ so_res (mpc_solve true 0 (S (length xE)) sts') = Solved 2).
+Proof.
+  cbn zeta. destruct e2e_premises_satisfiable as (NDV & HE & Hs & Ht & Hst & Hok & Hnn & Hcons).
+  split; [|split; [|split; [|split]]].
+  - intros k. rewrite (e2e_feasible_iff xV xE 0%N 5%N xf xPa xSa [1; 2; 3; 4]%N NDV HE Hs Ht Hst Hok k). rewrite Nat.leb_le. split.
+    + intros Hk. exists C05_xP, C05_xw. exact (C05_x_decomposition k Hk).
+    + intros (P & w & D). destruct diamond_width_two as (_ & A' & ND & Hincl & Hinc & Hlen).
+      rewrite <- Hlen. apply (decomposition_needs_width_many_paths (e2e_inst xV xE 0%N 5%N xf k) A' P w ND Hinc); [|exact D].
+      intros e He. apply Hincl in He. cbn in He. destruct He as [<-|[<-|[<-|[<-|[]]]]]; (split; [vm_compute; tauto|split; vm_compute; reflexivity]).
+  - intros i Hi. change (length xE) with 4%nat in *. do 4 (destruct i as [|i]; [eexists; split; reflexivity|]). lia.
+  - exact bounds_example.
+  - vm_compute. reflexivity.
+  - split; [|split; [intros k P w _; lia|vm_compute; reflexivity]].
+    intros i Hi. change (length xE) with 4%nat in *. do 5 (destruct i as [|i]; [eexists; split; reflexivity|]). lia.
+Qed.
+Print Assumptions C05_end_to_end_solver_hypotheses_satisfiable.
